@@ -29,13 +29,23 @@ CondDeltas(z) == {-1, 0, 1, -34560000, 345600000, 1500000000}
                  \cup {s * (Abs(ZoneOffsets(z)[i]) + e) : s \in {-1, 1}, e \in {-1, 0, 1}, i \in {1, 2}}
 CondIms(z)   == {NoIms, BadIms} \cup {Date(d) : d \in CondDeltas(z)}
 CondFiles    == { <<"f0">>, <<"f3">>, <<"x">> }
-R(k, a, b) == [k |-> k, a |-> a, b |-> b]
+R(k, a, b) == RangeRec(k, a, 0, b, 0)
 RangeSpecs == {NoRange, R("unit", 0, 1), R("bad", 0, 0)}
               \cup {R("fl", a, b) : a \in 0..7, b \in 0..7}
               \cup {R("f", a, 0) : a \in 0..7} \cup {R("s", a, 0) : a \in 0..7}
 CondRanges   == {NoRange, R("fl", 1, 1), R("s", 2, 0), R("bad", 0, 0)}
 SizedFiles == { <<"f0">>, <<"f1">>, <<"f2">>, <<"f3">>, <<"f4">>, <<"f5", DOT, "t">>, <<"f6">>, <<"x">> }
 NoTokens   == {}
+(* positions far beyond the file size: Huge first / last / both (every order of two Huge numbers) / suffix, next
+   to the small positions at and just beyond the size they must be decided like *)
+HugeRanges == {R("fl", a, b) : a \in 0..2, b \in {0, 2, 7}} \cup {R("f", a, 0) : a \in {0, 1, 3, 6, 7}}
+              \cup {R("s", a, 0) : a \in {1, 3, 6, 7}}
+              \cup {RangeRec("fl", a, 0, 0, hb) : a \in 0..7, hb \in 1..2}
+              \cup {RangeRec("fl", 0, ha, 0, hb) : ha \in 1..2, hb \in 1..2}
+              \cup {RangeRec("fl", 0, 1, b, 0) : b \in {0, 1, 6, 7}}
+              \cup {RangeRec("f", 0, hr, 0, 0) : hr \in 1..2} \cup {RangeRec("s", 0, hr, 0, 0) : hr \in 1..2}
+HugeFiles  == { <<"f0">>, <<"f1">>, <<"f3">>, <<"f6">>, <<"sub", SEP, "g2">>, <<"x">> }
+HugeIms(z) == {NoIms, Date(-1), Date(0)}
 (* small Range instance for the wrong-design runs *)
 SmallRanges == {NoRange} \cup {R("fl", a, b) : a \in 0..3, b \in 0..3} \cup {R("f", a, 0) : a \in 0..3} \cup {R("s", a, 0) : a \in 0..3}
 SmallFiles  == { <<"f0">>, <<"f2">>, <<"f3">> }
